@@ -644,6 +644,10 @@ where
             let mut buf = PacketIdType::Buffer::default();
             buf.as_mut()
                 .copy_from_slice(&data_arc[cursor..cursor + buffer_size]);
+            if buf.as_ref().iter().all(|&b| b == 0) {
+                // Packet Identifier 0 is not allowed
+                return Err(MqttError::MalformedPacket);
+            }
             cursor += buffer_size;
             Some(buf)
         } else {
